@@ -54,6 +54,9 @@ pub struct PointCfg {
     pub evar: u8,
     #[serde(default)]
     pub db: f64,
+    /// initial value set before the endpoint starts (no event, no trace line)
+    #[serde(default)]
+    pub init: Value,
 }
 
 #[derive(Deserialize, Clone, Debug)]
@@ -781,6 +784,14 @@ impl Run {
         handle.transaction(|db| {
             for p in &cfg.points {
                 add_point(db, p);
+                if p.init.is_object() {
+                    let mut u = p.init.clone();
+                    let o = u.as_object_mut().unwrap();
+                    o.insert("ty".into(), json!(p.ty));
+                    o.insert("ix".into(), json!(p.ix));
+                    o.insert("mode".into(), json!("suppress"));
+                    do_update(db, &u);
+                }
             }
         });
         let (ptx, prx) = tokio::sync::mpsc::unbounded_channel();
@@ -915,6 +926,7 @@ impl Run {
                 let dt = st["dt"].as_u64().unwrap_or(0);
                 line.insert("dt".into(), json!(dt));
                 tokio::time::sleep(Duration::from_millis(dt)).await;
+                quiesce().await;
                 tick();
             }
             "upd" | "upds" => {
